@@ -450,6 +450,11 @@ class Portfolio:
                 # no model transfer: re-ask z3 briefly for a model is pointless; report sat without model
                 return "sat", None, "cvc5", dt + dt2
         self.stats["unknown"] += 1
+        dd = os.environ.get("VERIF_DUMP")
+        if dd:
+            os.makedirs(dd, exist_ok=True)
+            with open(os.path.join(dd, "unk%d_%d.smt2" % (os.getpid(), self.stats["unknown"])), "w") as f:
+                f.write(s.to_smt2())
         return "unknown", None, "-", time.time() - t0
 
     def cvc5(self, solver):
@@ -856,6 +861,20 @@ def check_kernel_mode(sb, kernel, view, key, mod, consts, mode, opts, res, known
             res["obligations"].append({"label": lab, "verdict": "unsat", "solver": "trivial", "t": 0.0})
             continue
         v, model, sv, dt = pf.check(base + facts)
+        if v == "unknown" and kernel.splits is not None:
+            # case split (e.g. on operand signs): all cases unsat => unsat; a sat case carries its model
+            allu = True
+            for sc in kernel.splits(env):
+                v2, m2, sv2, dt2 = pf.check(base + facts + [sc])
+                dt += dt2
+                if v2 == "sat":
+                    v, model, sv, allu = "sat", m2, sv2 + "+split", False
+                    break
+                if v2 != "unsat":
+                    allu = False
+                    break
+            if allu:
+                v, sv = "unsat", "z3+split"
         rec = {"label": lab, "verdict": v, "solver": sv, "t": round(dt, 3)}
         if v == "sat" and model is None:
             # cvc5 said sat: get a model from z3 with a longer budget
